@@ -71,9 +71,17 @@ func probes() pbt.Probes {
 	addS("C17-string-source-text-exposed", sdlEscapedReason)
 	addS("C17-default-named-type-becomes-root-despite-schema-definition", sdlShadowRoot)
 	addS("C17-type-kind-wrong-when-directive-shares-name", sdlNameClash)
+	addQ("C17-engine-fails-when-query-type-shares-name-with-directive", "directive @Query on FIELD\ntype Query {\n  ping: String\n}\n", `{ __schema { queryType { name } } }`, "")
+	reuseSDLs := []string{"schema {\n  query: Query\n  subscription: Sub1\n}\ntype Query {\n  ping: String\n}\ntype Sub1 {\n  s: Int\n}\n", "type Query {\n  ping: String\n  a: Sub1\n}\ntype Sub1 {\n  s: Int\n}\n"}
+	p["C17-generator-reuse-keeps-root-type-names"] = pbt.ProbeDef{Input: reuseCase{SDLs: reuseSDLs}, Fn: func() string {
+		v, bad := evalReuseCase(reuseCase{SDLs: reuseSDLs}, &pbt.Rec{})
+		if v == nil {
+			return bad.Msg
+		}
+		return strings.Join(v.explained["C17-generator-reuse-keeps-root-type-names"], "; ")
+	}}
 	addQ("C17-alias-on-nested-introspection-field", sdlEnumDeprecated, `{ __type(name: "E") { k: kind name } }`, "")
 	addQ("C17-includeDeprecated-lost-when-operation-has-variables", sdlEnumDeprecated, `query Q($n: String!) { __type(name: $n) { enumValues(includeDeprecated: true) { name } } }`, `{"n":"E"}`)
-	addQ("C17-includeDeprecated-variable-default-ignored", sdlEnumDeprecated, `query Q($d: Boolean = true) { __type(name: "E") { enumValues(includeDeprecated: $d) { name } } }`, "")
 	addQ("C17-type-reference-not-expandable", sdlIfaceImplements, `{ __type(name: "Named") { interfaces { name fields { name } } } }`, "")
 	addQ("C17-root-typename-before-introspection-field-with-renamed-query-type", "schema {\n  query: RootQ\n}\ntype RootQ {\n  ping: String\n}\n", `{ __typename __schema { queryType { name } } }`, "")
 	return p
